@@ -9,3 +9,30 @@ Theorem c01_lu_backward : forall u, 0 <= u -> u < 1 -> forall n B L U, lu_rel u 
     Rabs (B i j - bigsum (fun k => L i k * U k j) n) <= gamma u n * bigsum (fun k => Rabs (L i k) * Rabs (U k j)) n.
 Proof. exact lu_backward. Qed.
 Print Assumptions c01_lu_backward.
+
+From SLU Require Import NumSolve.
+
+(* forward and back substitution in any summation order are backward stable, row-wise gamma(n) *)
+Theorem c01_lsolve_backward : forall u, 0 <= u -> u < 1 -> forall n L b y,
+  lsolve_rel u n L b y -> (forall i, (i < n)%nat -> L i i = 1) -> (forall i j, (i < j)%nat -> L i j = 0) -> INR n * u < 1 ->
+  exists dL : mat, (forall i j, (i < n)%nat -> (j < n)%nat -> Rabs (dL i j) <= gamma u n * Rabs (L i j)) /\
+                   forall i, (i < n)%nat -> b i = bigsum (fun k => (L i k + dL i k) * y k) n.
+Proof. exact lsolve_backward. Qed.
+Print Assumptions c01_lsolve_backward.
+
+Theorem c01_usolve_backward : forall u, 0 <= u -> u < 1 -> forall n U y x,
+  usolve_rel u n U y x -> (forall i j, (j < i)%nat -> U i j = 0) -> INR n * u < 1 ->
+  exists dU : mat, (forall i j, (i < n)%nat -> (j < n)%nat -> Rabs (dU i j) <= gamma u n * Rabs (U i j)) /\
+                   forall i, (i < n)%nat -> y i = bigsum (fun k => (U i k + dU i k) * x k) n.
+Proof. exact usolve_backward. Qed.
+Print Assumptions c01_usolve_backward.
+
+(* the whole solve (B = Pr*A*Pc, c = Pr*b, x = Pc^T*X), any summation order in the factorization and in both
+   substitutions: |c - B x| <= gamma(3n) |L||U||x| componentwise -- the bound of the property, in permuted numbering *)
+Theorem c01_solve_backward : forall u, 0 <= u -> u < 1 -> forall n B L U c y x,
+  lu_rel u n B L U -> lsolve_rel u n L c y -> usolve_rel u n U y x -> INR (3 * n) * u < 1 ->
+  forall i, (i < n)%nat ->
+    Rabs (c i - bigsum (fun j => B i j * x j) n)
+    <= gamma u (3 * n) * bigsum (fun j => bigsum (fun k => Rabs (L i k) * Rabs (U k j)) n * Rabs (x j)) n.
+Proof. exact solve_backward. Qed.
+Print Assumptions c01_solve_backward.
